@@ -73,10 +73,10 @@ theorem fv_fva_subset_names (t : IR) : (∀ y ∈ fv t, y ∈ names t) ∧ (∀ 
     · exact Or.inl (iha.1 y hy)
     · exact Or.inr (ihq.1 y hy)
     · exact Or.inr (ihq.2 y hy.1)
-  case aggLet ihv ihb =>
+  case aggLet ihv ihb | aggExplode ihv ihb =>
     simp only [fv, fva, names, List.mem_append, List.mem_cons, mem_remove]
     exact ⟨fun y hy => Or.inr (Or.inr (ihb.1 y hy)), fun y hy => Or.inr (hy.imp (ihv.1 y) (fun h => ihb.2 y h.1))⟩
-  case aggFilter ihc ihb =>
+  case aggFilter ihc ihb | aggGroupBy ihc ihb =>
     simp only [fv, fva, names, List.mem_append]
     exact ⟨fun y hy => Or.inr (ihb.1 y hy), fun y hy => hy.imp (ihc.1 y) (ihb.2 y)⟩
   case agg iha =>
@@ -97,8 +97,8 @@ theorem subst_of_not_free (x : Name) (v : IR) (t : IR) : x ∉ fv t → subst x 
   case ref y => intro h; simp [fv] at h; simp [subst, Ne.symm h]
   case i32 | i64 | f32 | f64 | str | bool | na | anil | snil | tnil | agg => intros; simp [subst]
   case streamAgg y a q iha _ => intro h; simp only [fv, List.mem_append, not_or] at h; simp [subst, iha h.1.1]
-  case aggLet y e b _ ihb => intro h; simp only [fv] at h; simp [subst, ihb h]
-  case aggFilter c b _ ihb => intro h; simp only [fv] at h; simp [subst, ihb h]
+  case aggLet y e b _ ihb | aggExplode y e b _ ihb => intro h; simp only [fv] at h; simp [subst, ihb h]
+  case aggFilter c b _ ihb | aggGroupBy c b _ ihb => intro h; simp only [fv] at h; simp [subst, ihb h]
   case cast | ascribe | isNA | un | arrayLen | toArray | toStream | getField | getTupleElement | toSet | toDict =>
     rename_i ih; intro h; simp only [fv] at h; simp [subst, ih h]
   case bin | cmp | acons | arrayRef | scons | insertField | tcons | dictGet =>
@@ -228,7 +228,23 @@ theorem eval_subst (x : Name) (v : IR) (t : IR) :
           simp [lookup_cons, this]
       rw [hv]
       exact ihb ρ _ hs.2
-  case aggFilter c b _ ihb =>
+  case aggGroupBy c b _ ihb =>
+    intro ρ A hs
+    simp only [substOk, Bool.or_eq_true, Bool.and_eq_true, decide_eq_true_eq, Bool.not_eq_true'] at hs
+    simp only [subst, eval]
+    congr 1
+    apply List.map_congr_left
+    intro kv _
+    congr 1
+    rcases hs with hs | hs
+    · rw [subst_of_not_free x v b hs]
+      apply eval_agree_env
+      intro z hz
+      have : x ≠ z := fun e => hs (e ▸ hz)
+      simp [lookup_cons, this]
+    · rw [eval_A_irrel v ρ A _ hs.1]
+      exact ihb ρ _ hs.2
+  case aggFilter c b _ ihb | aggExplode y c b _ ihb =>
     intro ρ A hs
     simp only [substOk, Bool.or_eq_true, Bool.and_eq_true, decide_eq_true_eq, Bool.not_eq_true'] at hs
     simp only [subst, eval]
@@ -462,6 +478,74 @@ theorem eval_substA (x : Name) (v : IR) (t : IR) :
       rw [eval_subst x v c σ [] hs.1]
     rw [hp]
     exact ihb ρ _ hs.2
+  case aggGroupBy c b _ ihb =>
+    intro ρ A hs
+    simp only [substAOk, Bool.and_eq_true] at hs
+    simp only [substA, eval]
+    have hc : ∀ σ, eval ((x, eval σ [] v) :: σ) [] c = eval σ [] (subst x v c) := fun σ => eval_subst x v c σ [] hs.1
+    rw [List.map_map]
+    have hm : ((fun σ => eval σ [] c) ∘ fun σ => (x, eval σ [] v) :: σ) = fun σ => eval σ [] (subst x v c) := by
+      funext σ; exact hc σ
+    rw [hm]
+    congr 1
+    apply List.map_congr_left
+    intro kv _
+    congr 1
+    rw [List.filter_map]
+    have hp : ((fun σ => keyEq (eval σ [] c) kv) ∘ fun σ => (x, eval σ [] v) :: σ)
+        = fun σ => keyEq (eval σ [] (subst x v c)) kv := by
+      funext σ; simp only [Function.comp, hc]
+    rw [hp]
+    exact ihb ρ _ hs.2
+  case aggExplode y e b _ ihb =>
+    intro ρ A hs
+    simp only [substAOk, Bool.and_eq_true, Bool.or_eq_true, decide_eq_true_eq] at hs
+    obtain ⟨hse, hyb⟩ := hs
+    simp only [substA, eval]
+    rw [List.flatMap_map]
+    have he : ∀ σ, eval ((x, eval σ [] v) :: σ) [] e = eval σ [] (subst x v e) :=
+      fun σ => eval_subst x v e σ [] hse
+    by_cases hyx : y = x
+    · rw [if_pos hyx]
+      apply eval_agree b ρ ρ _ _ (fun _ _ => rfl)
+      refine Rel2.flatMap _ _ ?_ (Rel2.refl (R := Eq) (fun _ => rfl) A)
+      intro σ σ' hσ
+      subst hσ
+      simp only [he]
+      cases asArr (eval σ [] (subst x v e)) with
+      | error o => exact .nil
+      | ok vs =>
+        apply Rel2.of_map
+        intro w z _
+        simp only [lookup_cons, hyx]
+        split <;> rfl
+    · rw [if_neg hyx]
+      rcases hyb with hyb | hyb
+      · exact absurd hyb hyx
+      · rw [← ihb ρ _ hyb.2, List.map_flatMap]
+        apply eval_agree b ρ ρ _ _ (fun _ _ => rfl)
+        refine Rel2.flatMap _ _ ?_ (Rel2.refl (R := Eq) (fun _ => rfl) A)
+        intro σ σ' hσ
+        subst hσ
+        simp only [he]
+        cases asArr (eval σ [] (subst x v e)) with
+        | error o => exact .nil
+        | ok vs =>
+          simp only [explodeEnv, List.map_map]
+          apply Rel2.of_map
+          intro w z _
+          simp only [Function.comp]
+          have hv : eval ((y, w) :: σ) [] v = eval σ [] v := by
+            apply eval_agree_env
+            intro u hu
+            have : y ≠ u := fun e => hyb.1 (e ▸ hu)
+            simp [lookup_cons, this]
+          rw [hv]
+          simp only [lookup_cons]
+          have hxy : ¬ x = y := fun e => hyx e.symm
+          by_cases h1 : y = z
+          · subst h1; simp [hxy]
+          · simp [h1]
   case aggLet y e b _ ihb =>
     intro ρ A hs
     simp only [substAOk, Bool.and_eq_true, Bool.or_eq_true, decide_eq_true_eq] at hs
@@ -536,7 +620,7 @@ theorem eval_inlineCse (t : IR) : inlineOk t = true → ∀ ρ A, eval ρ A (inl
     intro h ρ A; simp only [inlineOk] at h
     have := fun σ => iha h σ []
     cases op <;> simp [inlineCse, eval, this]
-  case aggFilter c b ihc ihb =>
+  case aggFilter c b ihc ihb | aggExplode y c b ihc ihb | aggGroupBy c b ihc ihb =>
     intro h ρ A; simp only [inlineOk, Bool.and_eq_true] at h
     have := fun σ => ihc h.1 σ []
     simp [inlineCse, eval, this, ihb h.2]
@@ -627,6 +711,16 @@ theorem scopeOk_sound (t : IR) : ∀ Γ Δ, scopeOk Γ Δ t = true → WellScope
     cases Δ with
     | none => simp [scopeOk] at h
     | some D => simp only [scopeOk] at h; exact .agg (iha D none h)
+  case aggExplode ihv ihb =>
+    intro Γ Δ h
+    cases Δ with
+    | none => simp [scopeOk] at h
+    | some D => simp only [scopeOk, Bool.and_eq_true] at h; exact .aggExplode (ihv D none h.1) (ihb Γ _ h.2)
+  case aggGroupBy ihc ihb =>
+    intro Γ Δ h
+    cases Δ with
+    | none => simp [scopeOk] at h
+    | some D => simp only [scopeOk, Bool.and_eq_true] at h; exact .aggGroupBy (ihc D none h.1) (ihb Γ _ h.2)
 
 theorem scopeOk_complete {Γ Δ t} (h : WellScoped Γ Δ t) : scopeOk Γ Δ t = true := by
   induction h <;> simp_all [scopeOk]
@@ -677,8 +771,7 @@ theorem fv_fva_of_wellScoped {Γ Δ t} (h : WellScoped Γ Δ t) :
       cases hD
       simp only [List.mem_cons] at hyD
       exact hyD.resolve_left hy.2
-  case aggLet ihv ihb =>
-    rename_i D _ x _ _ _ _
+  case aggLet ihv ihb | aggExplode ihv ihb =>
     simp only [fv, fva, List.mem_append, mem_remove]
     refine ⟨ihb.1, fun y hy => ?_⟩
     rcases hy with hy | hy
@@ -687,7 +780,7 @@ theorem fv_fva_of_wellScoped {Γ Δ t} (h : WellScoped Γ Δ t) :
       cases hD
       simp only [List.mem_cons] at hyD
       exact ⟨_, rfl, hyD.resolve_left hy.2⟩
-  case aggFilter ihc ihb =>
+  case aggFilter ihc ihb | aggGroupBy ihc ihb =>
     simp only [fv, fva, List.mem_append]
     refine ⟨ihb.1, fun y hy => ?_⟩
     rcases hy with hy | hy
@@ -714,7 +807,7 @@ namespace HailVerif.ExprIR
 theorem aggFree_abstractAt (x : Name) (v : IR) (F : List Name) (t : IR) :
     aggFree t = true → aggFree (abstractAt x v F t) = true := by
   induction t
-  case streamAgg | aggLet | aggFilter | agg => intro h; simp [aggFree] at h
+  case streamAgg | aggLet | aggFilter | agg | aggExplode | aggGroupBy => intro h; simp [aggFree] at h
   case ref | i32 | i64 | f32 | f64 | str | bool | na | anil | snil | tnil =>
     intro _; simp only [abstractAt]; split <;> simp [aggFree]
   case cast | ascribe | isNA | un | arrayLen | toArray | toStream | getField | getTupleElement | toSet | toDict =>
@@ -750,7 +843,7 @@ theorem aggFree_abstractAt (x : Name) (v : IR) (F : List Name) (t : IR) :
 theorem subst_abstractAt (x : Name) (v : IR) (F : List Name) (t : IR) :
     x ∉ names t → subst x v (abstractAt x v F t) = t := by
   induction t
-  case streamAgg | aggLet | aggFilter | agg => intro h; exact subst_of_not_names x v _ h
+  case streamAgg | aggLet | aggFilter | agg | aggExplode | aggGroupBy => intro h; exact subst_of_not_names x v _ h
   case ref y =>
     intro h; simp only [names, List.mem_singleton] at h
     simp only [abstractAt]; split
@@ -815,7 +908,7 @@ theorem subst_abstractAt (x : Name) (v : IR) (F : List Name) (t : IR) :
 theorem substOk_abstractAt (x : Name) (v : IR) (F FA : List Name) (dep : Bool) (t : IR) :
     aggFree t = true → x ∉ names t → substOk x F FA dep (abstractAt x v F t) = true := by
   induction t
-  case streamAgg | aggLet | aggFilter | agg => intro h; simp [aggFree] at h
+  case streamAgg | aggLet | aggFilter | agg | aggExplode | aggGroupBy => intro h; simp [aggFree] at h
   case ref | i32 | i64 | f32 | f64 | str | bool | na | anil | snil | tnil =>
     intro _ _; simp only [abstractAt]; split <;> simp [substOk]
   case cast | ascribe | isNA | un | arrayLen | toArray | toStream | getField | getTupleElement | toSet | toDict =>
